@@ -21,8 +21,8 @@ pub struct Acc {
 
 pub type Filter = fn(&str, &str) -> bool;
 
-pub fn run_case(dag: &Dag, evs: &[Ev], oracles: SimOracles, abandon: bool, filter: Filter, acc: &mut Acc) {
-    let mut sim = Sim::new(dag, oracles);
+pub fn run_case_on<SP: rtlib::rt::StorageProvider>(dag: &Dag, evs: &[Ev], oracles: SimOracles, abandon: bool, filter: Filter, make: fn(rtlib::rt::GraphId) -> rtlib::replica::Replica<SP>, acc: &mut Acc) {
+    let mut sim = Sim::new(dag, oracles, make);
     sim.abandon_on_add_error = abandon;
     for e in evs {
         sim.step(e);
@@ -56,6 +56,10 @@ pub fn run_case(dag: &Dag, evs: &[Ev], oracles: SimOracles, abandon: bool, filte
     }
 }
 
+pub fn run_case(dag: &Dag, evs: &[Ev], oracles: SimOracles, abandon: bool, filter: Filter, acc: &mut Acc) {
+    run_case_on(dag, evs, oracles, abandon, filter, rtlib::replica::MemReplica::new_mem, acc)
+}
+
 /// Runs `gen(dag)`-produced cases for every universe in parallel and folds into the report.
 pub fn run_all(
     rep: &mut Report,
@@ -66,11 +70,33 @@ pub fn run_all(
     filter: Filter,
     gen: impl Fn(&Dag, &mut dyn FnMut(&[Ev])) + Sync,
 ) -> u64 {
+    run_all_on(rep, family, dags, oracles, abandon, filter, false, gen)
+}
+
+/// `file_backend`: run on `LinearStorageProvider<FileManager>` in a scratch directory instead of the
+/// memory-backed provider.
+#[allow(clippy::too_many_arguments)]
+pub fn run_all_on(
+    rep: &mut Report,
+    family: &str,
+    dags: &[Dag],
+    oracles: SimOracles,
+    abandon: bool,
+    filter: Filter,
+    file_backend: bool,
+    gen: impl Fn(&Dag, &mut dyn FnMut(&[Ev])) + Sync,
+) -> u64 {
     let accs: Vec<Acc> = dags
         .par_iter()
         .map(|d| {
             let mut acc = Acc::default();
-            gen(d, &mut |evs: &[Ev]| run_case(d, evs, oracles, abandon, filter, &mut acc));
+            gen(d, &mut |evs: &[Ev]| {
+                if file_backend {
+                    run_case_on(d, evs, oracles, abandon, filter, rtlib::replica::FileReplica::new_file, &mut acc)
+                } else {
+                    run_case(d, evs, oracles, abandon, filter, &mut acc)
+                }
+            });
             acc
         })
         .collect();
